@@ -322,6 +322,32 @@ func (g *vgen) verifyFamily(keys []vkey, n int, repeats bool) {
 		c.Signatures[i+1].Index = c.Signatures[i].Index
 		g.ver("sameindex", c, addrs)
 	}
+	// ordering at the numeric boundaries of the index (0, 127|128 = int8 wrap, 254|255): every signature below is valid for
+	// the position it claims; only the order differs.  Descending or repeated orders must fail, ascending ones succeed.
+	if !repeats {
+		var bs []int
+		for _, b := range []int{0, 1, 2, 63, 64, 126, 127, 128, 129, 130, 191, 192, 200, 253, 254} {
+			if b < n {
+				bs = append(bs, b)
+			}
+		}
+		for _, hi := range bs {
+			if hi == 0 {
+				continue
+			}
+			for _, lo := range []int{0, hi - 1, hi / 2} {
+				if lo >= hi {
+					continue
+				}
+				g.ver("order-desc", mk([]int{hi, lo}), addrs)
+				g.ver("order-asc", mk([]int{lo, hi}), addrs)
+				if hi+1 < n {
+					g.ver("order-dip", mk([]int{lo, hi + 1, hi}), addrs)
+					g.ver("order-peak", mk([]int{hi, hi + 1, lo}), addrs)
+				}
+			}
+		}
+	}
 	if len(idx) >= 1 {
 		i := r.Intn(len(idx))
 		c := vclone(valid)
